@@ -76,6 +76,8 @@ class Engine:
             nm = f"{nm}#{n}"
         hyps = list(st.pc) + list(self.axioms_used.values())
         self.obls.append(Obligation(nm, kind, hyps, goal, lineno, note or " & ".join(st.trace[-6:])))
+        self.obls[-1].n_pc = len(st.pc)
+        self.obls[-1].ax_defs = [self.__dict__.get("axiom_defs", {}).get(k) for k in self.axioms_used]
 
     def cover(self, st, label, lineno=0):
         nm = f"{self.name}/cover/{label}"
@@ -119,6 +121,7 @@ class Engine:
         arr = z3.Const(fresh_name("S"), z3.ArraySort(dom, z3.BoolSort()))
         # definitional axiom of a fresh constant: conservative, so it may be visible to every obligation
         self.axioms_used[f"set!{len(self._set_cache)}"] = z3.ForAll(consts, z3.Select(arr, consts[0]) == body)
+        self.__dict__.setdefault("axiom_defs", {})[f"set!{len(self._set_cache)}"] = arr.decl().name()
         self._set_cache[key] = (arr, body)  # keep 'body' alive so the AST id stays unique
         return arr
 
